@@ -5,6 +5,7 @@ mod c01;
 mod c03;
 #[cfg(ragc_verif_sched)]
 mod c04;
+mod c04f;
 mod c06;
 mod c08;
 #[cfg(ragc_verif_sched)]
@@ -38,6 +39,7 @@ fn main() {
         "c02" => c01::run(c01::Mode::Format),
         "c07" => c01::run(c01::Mode::Ranges),
         "c03" => c03::run(),
+        "c04-threads" => c04f::run(),
         "c08" => c08::run(),
         "c18-table" => c01::run(c01::Mode::Table),
         "c06-op" => c06::run(),
